@@ -7,6 +7,7 @@ import Driver.Client
 import Driver.Hist
 import Driver.Editions
 import Driver.Mem
+import Driver.Conn
 /-
   udsdrv: one request per line on stdin, one answer per line on stdout.  Imports Model and Spec only.
 -/
@@ -21,6 +22,7 @@ def dispatch (cmd : String) (a : Args) : Except String String :=
   else if cmd == "hist" then Drv.Hist.run cmd a
   else if cmd.startsWith "ed." then Drv.Editions.run cmd a
   else if cmd.startsWith "ml." then Drv.Mem.run cmd a
+  else if cmd == "conn" || cmd == "qconn" then Drv.Conn.run cmd a
   else throw s!"unknown command {cmd}"
 
 partial def loop (hin hout : IO.FS.Stream) : IO Unit := do
